@@ -228,3 +228,28 @@ Theorem C07_sac_log_ent_coef_init : forall s, 0 < sac_init_alpha_Q s ->
   (exp (sac_log_alpha_init s) = Q2R (sac_init_alpha_Q s) /\ sac_log_alpha_init (EntAuto None) = 0)%R.
 Proof. exact sac_log_alpha_init_spec. Qed.
 Print Assumptions C07_sac_log_ent_coef_init.
+
+(* ---------------- the remaining helpers of the twins are pinned to closed forms / the R definitions ---------------- *)
+Theorem C07_twin_values_and_schedule :
+  (forall l, Q2R (qsum l) = LossCommon.sumR (map Q2R l)) /\
+  (forall l, l <> [] -> Q2R (qmean l) = meanR (map Q2R l)) /\
+  (forall n total lr0,
+     (progress_Q n total == Qmax 0 (1 - n / total) /\
+      lr_Q true lr0 n total == lr0 * Qmax 0 (1 - n / total) /\ lr_Q false lr0 n total == lr0 /\
+      clipped_Q lr0 n total == clip_coef_Q lr0 n * total)%Q) /\
+  (forall ys qcols alpha lps rows gamma rs ds nrows qs,
+     (fst (sac_critic_Q ys qcols) == (1 # 2) * qsum (map (fun col => qmean (qmap2 (fun q y => (q - y) * (q - y)) col ys)) qcols) /\
+      fst (td3_critic_Q ys qcols) == qsum (map (fun col => qmean (qmap2 (fun q y => (q - y) * (q - y)) col ys)) qcols) /\
+      fst (sac_actor_Q alpha lps rows) == qmean (qmap2 (fun lp m => alpha * lp - m) lps (map qmin_list rows)) /\
+      fst (snd (dqn_batch_Q gamma rs ds nrows qs)) == qmean (qmap2 (fun q y => huber_Q (q - y)) qs (fst (dqn_batch_Q gamma rs ds nrows qs))))%Q) /\
+  (forall m row, argmin_mask m row true = map (fun _ => 0%Q) row) /\
+  (forall a i, sac_learned (EntFixed a) = false /\ sac_learned (EntAuto i) = true) /\
+  (forall q y alpha lp m,
+     Q2R ((q - y) * (q - y)) = sq_err (Q2R y) (Q2R q) /\
+     Q2R ((1 # 2) * ((q - y) * (q - y))) = sac_critic_term (Q2R y) (Q2R q) /\
+     Q2R ((q - y) * (q - y)) = td3_critic_term (Q2R y) (Q2R q) /\
+     Q2R (alpha * lp - m) = (Q2R alpha * Q2R lp - Q2R m)%R).
+Proof.
+  exact (conj qsum_R (conj qmean_R (conj progress_lr_spec (conj twin_loss_values (conj argmin_mask_found (conj sac_learned_spec critic_actor_terms_R)))))).
+Qed.
+Print Assumptions C07_twin_values_and_schedule.
